@@ -1399,3 +1399,183 @@ def rule_R11_attr_value_truth(ctx, typer):
                 n += 1
                 ctx.inst("R11", f, node, "attribute value read")
     return n
+
+
+# ---------------------------------------------------------------------- G7
+def rule_G7_fanout_dedup(ctx, typer):
+    """'**': the results found below the different subtree nodes are merged through an identity duplicate test - every
+    addition to the result list inside the fan-out loop is guarded by `not any(m is s for s in <result>)` or by a
+    membership test on id() values (a node reachable from several subnodes, e.g. through '..', is returned once)"""
+    from ..nodetype import ID
+    cls, funcs = resolver_funcs(ctx.p)
+    f = funcs.get("__glob")
+    if f is None:
+        raise AnalysisError("anchor Resolver.__glob not found")
+    ft = typer.results.get(f) or typer.analyze(f)
+    cfg = typer.cfg_of(f)
+    nodep = f.posparams[1]
+    fans = [lp for lp in walk_own(f.node) if isinstance(lp, ast.For) and isinstance(lp.iter, ast.Call) and norm(lp.iter.func) == "PreOrderIter"
+            and lp.iter.args and norm(lp.iter.args[0]) == nodep]
+    if not fans:
+        raise AnalysisError("anchor: '**' fan-out loop (PreOrderIter(node)) in Resolver.__glob not found")
+    n = 0
+    for lp in fans:
+        inside = {id(x) for s_ in lp.body for x in ast.walk(s_)}
+        for cn in cfg.nodes:
+            if cn.kind != "stmt" or id(cn.ast) not in inside:
+                continue
+            a = cn.ast
+            acc = None
+            if isinstance(a, ast.AugAssign) and isinstance(a.target, ast.Name):
+                acc = a.target.id
+            elif isinstance(a, ast.Expr) and isinstance(a.value, ast.Call) and isinstance(a.value.func, ast.Attribute) \
+                    and a.value.func.attr in ("append", "extend", "insert") and isinstance(a.value.func.value, ast.Name):
+                acc = a.value.func.value.id
+            if acc is None:
+                continue
+            # only accumulators of nodes (id sets used for the duplicate test itself are not results)
+            t = ft.type_of(ast.Name(id=acc, ctx=ast.Load())) if False else None
+            arg = a.value if isinstance(a, ast.AugAssign) else (a.value.args[-1] if a.value.args else None)
+            ta = ft.type_of(arg) if arg is not None else None
+            if ta is not None and ta == ID:
+                continue
+            n += 1
+            ok = False
+            for c, o, _ in cfg.guards_of(cn):
+                neg = False
+                if isinstance(c, ast.UnaryOp) and isinstance(c.op, ast.Not):
+                    c, neg = c.operand, True
+                if isinstance(c, ast.Call) and isinstance(c.func, ast.Name) and c.func.id == "any" and c.args \
+                        and isinstance(c.args[0], (ast.GeneratorExp, ast.ListComp)):
+                    g = c.args[0]
+                    el = g.elt
+                    if isinstance(el, ast.Compare) and len(el.ops) == 1 and isinstance(el.ops[0], ast.Is) \
+                            and norm(g.generators[0].iter) == acc and (o is False) != neg:
+                        ok = True
+                if isinstance(c, ast.Compare) and len(c.ops) == 1 and isinstance(c.ops[0], (ast.In, ast.NotIn)):
+                    tl = ft.type_of(c.left)
+                    absent = isinstance(c.ops[0], ast.NotIn) == bool(o)
+                    if neg:
+                        absent = not absent
+                    if tl is not None and tl == ID and absent:
+                        ok = True
+            if not ok:
+                # for seen in <acc>: if seen is m: break / else: <add>   (the else branch runs only when no element matched)
+                dom = cfg.dominators().get(cn.id, set())
+                for i_ in dom:
+                    d_ = cfg.nodes[i_]
+                    if d_.kind == "loopdone" and isinstance(d_.ast, ast.For) and norm(d_.ast.iter) == acc and len(d_.ast.body) == 1 \
+                            and isinstance(d_.ast.body[0], ast.If) and not d_.ast.body[0].orelse and len(d_.ast.body[0].body) == 1 \
+                            and isinstance(d_.ast.body[0].body[0], ast.Break) and any(a is x for s_ in d_.ast.orelse for x in ast.walk(s_)):
+                        t_ = d_.ast.body[0].test
+                        if isinstance(t_, ast.Compare) and len(t_.ops) == 1 and isinstance(t_.ops[0], ast.Is):
+                            ok = True
+            if ok:
+                ctx.inst("G7", f, a, "added only after the identity duplicate test")
+            else:
+                ctx.viol("G7", f, a, "results of the '**' fan-out are added to `%s` without an identity duplicate test on this path: a node "
+                         "reachable from several subtree nodes (e.g. `**/..`) is returned more than once" % acc)
+    return n
+
+
+# ---------------------------------------------------------------------- G1b
+def rule_G1b_dotall(ctx, typer):
+    """'*' and '?' stand for ANY character: the compiled pattern has DOTALL in effect on every path - as the inline flag
+    of the translation or in every value the `flags` argument of re.compile can take"""
+    cls, funcs = resolver_funcs(ctx.p)
+    n = 0
+    for f in list(cls.funcs()) + [g for g in ctx.p.all_funcs if g.module.relpath == RES and g.cls is None]:
+        for node in walk_own(f.node):
+            if not (isinstance(node, ast.Call) and norm(node.func) == "re.compile"):
+                continue
+            n += 1
+            # inline flag in the translation?
+            tr = funcs.get("__translate")
+            inline = False
+            if tr is not None:
+                for c in ast.walk(tr.node):
+                    if isinstance(c, ast.Constant) and isinstance(c.value, str) and c.value.startswith("(?") and "s" in c.value.split(")")[0]:
+                        inline = True
+            for c in ast.walk(f.node):
+                if isinstance(c, ast.Constant) and isinstance(c.value, str) and c.value.startswith("(?") and "s" in c.value.split(")")[0]:
+                    inline = True
+            if inline:
+                ctx.inst("G1", f, node, "DOTALL through the inline flag of the translation")
+                continue
+            fl = None
+            for k in node.keywords:
+                if k.arg == "flags":
+                    fl = k.value
+            if fl is None and len(node.args) >= 2:
+                fl = node.args[1]
+            poss = _flag_sets(typer.cfg_of(f), f, node, fl)
+            if poss is None:
+                raise AnalysisError("G1: cannot follow the flags of re.compile in %s" % f.qual)
+            if all("DOTALL" in s_ or "S" in s_ for s_ in poss) and poss:
+                ctx.inst("G1", f, node, "DOTALL in every value of the flags argument")
+            else:
+                ctx.viol("G1", f, node, "the pattern is compiled without DOTALL on some path (flags %s, no inline `(?s)`): '*' and '?' do "
+                         "not match a newline in a name there" % sorted(sorted(s_) for s_ in poss),
+                         construct="%s: re.compile without DOTALL" % f.qual)
+    return n
+
+
+def _flag_names(e):
+    """names of the re flags OR-ed in an expression; None if not such an expression"""
+    if e is None:
+        return frozenset()
+    if isinstance(e, ast.Constant) and e.value == 0:
+        return frozenset()
+    if isinstance(e, ast.Attribute) and norm(e.value) == "re":
+        return frozenset([e.attr])
+    if isinstance(e, ast.BinOp) and isinstance(e.op, ast.BitOr):
+        l, r = _flag_names(e.left), _flag_names(e.right)
+        if l is None or r is None:
+            return None
+        return l | r
+    return None
+
+
+def _flag_sets(cfg, f, call, e):
+    """possible sets of flag names of the expression at the call (forward dataflow over the flags variable)"""
+    from .common import cfg_nodes_containing
+    direct = _flag_names(e)
+    if direct is not None:
+        return {direct}
+    if not isinstance(e, ast.Name):
+        return None
+    var = e.id
+    state = {cfg.entry.id: frozenset([None])}
+    work = [cfg.entry]
+    steps = 0
+    while work:
+        n_ = work.pop(0)
+        steps += 1
+        if steps > 3000:
+            return None
+        cur = state[n_.id]
+        a = n_.ast
+        out = cur
+        if n_.kind == "stmt" and isinstance(a, ast.Assign) and any(isinstance(t, ast.Name) and t.id == var for t in a.targets):
+            v = _flag_names(a.value)
+            out = frozenset(["?"]) if v is None else frozenset([v])
+        elif n_.kind == "stmt" and isinstance(a, ast.AugAssign) and isinstance(a.target, ast.Name) and a.target.id == var:
+            v = _flag_names(a.value)
+            if v is None or not isinstance(a.op, ast.BitOr):
+                out = frozenset(["?"])
+            else:
+                out = frozenset((s_ | v) if isinstance(s_, frozenset) else s_ for s_ in cur)
+        for s, lab in n_.succ:
+            if lab == "exc":
+                continue
+            new = state.get(s.id, frozenset()) | out
+            if new != state.get(s.id):
+                state[s.id] = new
+                work.append(s)
+    hs = cfg_nodes_containing(cfg, call)
+    if not hs:
+        return None
+    poss = state.get(hs[0].id, frozenset())
+    if None in poss or "?" in poss:
+        return None
+    return set(poss)
